@@ -20,6 +20,8 @@ def prepare(sc: Scratch) -> dict:
     prep.update({
         "target_dir": CACHE / "target-session",
         "specs": specs,
+        # MiniSat decides these pointer-heavy, arithmetic-light instances 4-10x faster than Kani's default CaDiCaL (measured)
+        "kani_args": ["--solver", "minisat"],
         "jobs": {"quick": 8, "thorough": 8},
         "assumptions": session.SESSION_SHIM_ASSUMPTIONS + [
             "Processor::will_encrypt / will_sign are two arbitrary booleans (encrypt implies not-just-sign); biscotti's crypto is taken at its word",
